@@ -27,7 +27,7 @@ Proof.
   - destruct k as [|c k]; simpl in *; [auto|]. rewrite H. auto.
   - destruct (p x) eqn:E.
     + destruct (IH H) as [H1 H2]. rewrite H1, H2. auto.
-    + simpl. rewrite E. auto.
+    + simpl. auto.
 Qed.
 
 Lemma dw_stops : forall p s k, (drop_while p s = [] -> match k with [] => True | c :: _ => p c = false end) ->
